@@ -517,7 +517,21 @@ func (vc *VC) execTypeAssert(fr *Frame, x *ssa.TypeAssert, st *State) {
 }
 
 func (vc *VC) ifaceEq(a, b Val) string {
-	// comparison with nil or identical dynamic type and payload identity.
+	// comparison with nil or identical dynamic type and payload identity; values of a
+	// zero-size dynamic type (encoding/binary's byte orders) are equal whenever the types are
+	for _, x := range []Val{a, b} {
+		var id uint64
+		var w int
+		if _, err := fmt.Sscanf(x.L[0], "(_ bv%d %d)", &id, &w); err == nil && int(id) < len(vc.w.tags.types) {
+			if t := vc.w.tags.types[id]; t != nil {
+				if _, isPtr := t.Underlying().(*types.Pointer); !isPtr && len(layoutOf(t).Leaves) == 0 {
+					return eq(a.L[0], b.L[0])
+				}
+			} else if int(id) == vc.w.tags.tagNamed("encoding/binary.littleEndian") || int(id) == vc.w.tags.tagNamed("encoding/binary.bigEndian") {
+				return eq(a.L[0], b.L[0])
+			}
+		}
+	}
 	return and(eq(a.L[0], b.L[0]), eq(a.L[1], b.L[1]))
 }
 
@@ -619,6 +633,10 @@ func (vc *VC) bytesToString(st *State, v Val, to types.Type) Val {
 		h := vc.heapTerm(st, elemHeapName(elemKey(types.Typ[types.Uint8]), ""), arrSort(sBV64, arrSort(sBV64, sBV8)))
 		snap := vc.define("snap", arrSort(sBV64, sBV8), sel(h, v.L[0]))
 		vc.strSrc[sid] = &strSource{arr: snap, off: v.L[1]}
+		// the same fact for readers that reach the string through the heap or a ghost store
+		vc.declare("StrB", arrSort(sBV64, arrSort(sBV64, sBV8)))
+		q := vc.fresh("i")
+		vc.assume("true", fmt.Sprintf("(forall ((%s %s)) (! (= (select (select StrB %s) %s) (select %s (bvadd %s %s))) :pattern ((select (select StrB %s) %s))))", q, sBV64, sid, q, snap, v.L[1], q, sid, q))
 	}
 	return Val{T: to, L: []string{sid, bvLit(64, 0), v.L[2]}}
 }
